@@ -423,6 +423,9 @@ func (e *Engine) expire(interval time.Duration, reporter func(error)) {
 	for {
 		// await next interval
 		verifAwait("expire.tick", e, func() bool { return verifReady("expire.tick", !e.tomb.Alive(), verifTickPending(e)) })
+		if verifBoth(!e.tomb.Alive(), verifTickPending(e)) {
+			return
+		}
 		select {
 		case <-e.tomb.Dying():
 			return
